@@ -33,6 +33,31 @@ type GlobalSnap struct {
 	extents []extent
 	hash    uint64
 	nvars   int
+	// package-level variables that are not among the shared constants and
+	// lookup tables the property names (state added by a change, e.g. a memo
+	// cache): their content is free to change; a change only triggers the
+	// behavioural re-evaluation oracle.
+	looseExt  []extent
+	looseHash uint64
+	nloose    int
+}
+
+// pinnedConstants are "the package's shared constants and lookup tables" of
+// property C06 (its anchors: table.go, const.go, decimal.go, bigint.go,
+// round.go, context.go). For these the rule is strict: content that was
+// non-zero when package initialisation finished must persist. Any other
+// package-level variable found in the tree under test is treated as internal
+// mutable state of an implementation (a cache may legitimately replace its
+// entries, even ones filled during init), so that a semantically invisible
+// cache never raises an alarm; whether such state leaks into results is
+// decided by the behavioural oracles (clean-room / repeat call, in-process
+// re-evaluation, cross-process history replay).
+var pinnedConstants = map[string]bool{
+	"BaseContext": true, "_Form_index": true, "bigFive": true, "bigOne": true, "bigTen": true, "bigTwo": true,
+	"decimalCbrtC1": true, "decimalCbrtC2": true, "decimalCbrtC3": true, "decimalEight": true, "decimalHalf": true,
+	"decimalInfinity": true, "decimalInvLn10": true, "decimalLn10": true, "decimalMaxInt64": true, "decimalMinInt64": true,
+	"decimalNaN": true, "decimalOne": true, "decimalOneEighth": true, "decimalThree": true, "decimalTwo": true, "decimalZero": true,
+	"digitsLookupTable": true, "negSentinel": true, "pow10LookupTable": true, "roundings": true,
 }
 
 // access makes an unexported field value readable through reflect.
@@ -85,8 +110,8 @@ func (g *GlobalSnap) snap(v reflect.Value, depth int, seen map[unsafe.Pointer]bo
 		}
 	case reflect.Map:
 		type kv struct {
-			k string
-			v reflect.Value
+			k  string
+			v  reflect.Value
 			kk reflect.Value
 		}
 		var kvs []kv
@@ -217,15 +242,27 @@ func SnapGlobals() *GlobalSnap {
 		if harnessOwned[r.Name] {
 			continue
 		}
-		g.roots = append(g.roots, r)
 		v := reflect.ValueOf(r.Ptr).Elem()
+		if !pinnedConstants[r.Name] {
+			// loose: raw memory of the variable itself plus what it reaches now
+			tmp := &GlobalSnap{}
+			if sz := v.Type().Size(); sz > 0 {
+				tmp.extents = append(tmp.extents, extent{unsafe.Pointer(v.UnsafeAddr()), sz})
+			}
+			tmp.snap(v, 0, map[unsafe.Pointer]bool{})
+			g.looseExt = append(g.looseExt, tmp.extents...)
+			g.nloose++
+			continue
+		}
+		g.roots = append(g.roots, r)
 		if sz := v.Type().Size(); sz > 0 {
 			g.extents = append(g.extents, extent{unsafe.Pointer(v.UnsafeAddr()), sz})
 		}
 		g.nodes = append(g.nodes, g.snap(v, 0, map[unsafe.Pointer]bool{}))
 	}
-	g.nvars = len(g.roots)
+	g.nvars = len(g.roots) + g.nloose
 	g.hash = hashExtents(g.extents)
+	g.looseHash = hashExtents(g.looseExt)
 	return g
 }
 
@@ -251,3 +288,21 @@ func (g *GlobalSnap) NumVars() int { return g.nvars }
 // called only after a full deep Check has passed (e.g. a lazily filled cache
 // that was empty at init has grown).
 func (g *GlobalSnap) Rebase() { g.hash = hashExtents(g.extents) }
+
+// LooseChanged reports whether the raw memory of the non-pinned package state
+// differs from the last time it was asked, and re-bases.
+//
+//go:norace
+func (g *GlobalSnap) LooseChanged() bool {
+	if len(g.looseExt) == 0 {
+		return false
+	}
+	h := hashExtents(g.looseExt)
+	if h == g.looseHash {
+		return false
+	}
+	g.looseHash = h
+	return true
+}
+
+func (g *GlobalSnap) NumLoose() int { return g.nloose }
